@@ -19,7 +19,7 @@ class ConstraintSoftModel(ConstraintModel):
 
     def build(self, btor, soft=False):
         if soft:
-            return self.expr.build(btor)
+            return ExprModel.toBool(btor, self.expr.build(btor))
         else:
             return None
 
